@@ -62,6 +62,7 @@ class Relay:
         self.storage = self.store.storage
         self.limiter = rate_limiter.RateLimiter(rate_limits) if rate_limits else rate_limiter.NullRateLimiter()
         self.conns = []
+        self.tracer = None          # lib.ptrace.Tracer, when a run is being recorded
         self.log = logging.getLogger("nostr_relay.verif.web")
         asyncio.sleep = _fast_sleep
         asyncio.Queue = _RecQueue
@@ -135,10 +136,13 @@ class Relay:
 
 
 class Conn:
-    def __init__(self, relay, remote_addr="1.2.3.4", start=True):
+    def __init__(self, relay, remote_addr="1.2.3.4", start=True, no=None):
         import falcon
 
         self.relay = relay
+        self.no = len(relay.conns) if no is None else no
+        self.pending_event_ids = []      # ids of the EVENT messages sent and not yet answered (FIFO)
+        self.closing = False
         self.inbox = _real_queue()
         self.out = []          # raw text frames sent to the client
         self.closed_with = None
@@ -152,6 +156,8 @@ class Conn:
         self._queue = None
         self._falcon = falcon
         relay.conns.append(self)
+        if relay.tracer is not None:
+            relay.tracer.labels.append({"t": "connect", "c": self.no})
         if start:
             self.task = relay.loop.create_task(self._main())
             relay.settle()
@@ -166,6 +172,8 @@ class Conn:
                     # a client that has stopped reading its socket: the send does not complete
                     await self._unstall.wait()
                 self.out.append(text)
+                if self.relay.tracer is not None:
+                    self.relay.tracer.on_send(self, text)
             finally:
                 self.sending = False
 
@@ -196,6 +204,8 @@ class Conn:
     # -- client side -------------------------------------------------------------------------------
     def send(self, msg, settle=True):
         text = msg if isinstance(msg, str) else json.dumps(msg)
+        if isinstance(msg, list) and len(msg) > 1 and msg[0] == "EVENT" and isinstance(msg[1], dict):
+            self.pending_event_ids.append(msg[1].get("id"))
         self.inbox.put_nowait(text)
         if settle:
             self.relay.settle()
